@@ -113,6 +113,9 @@ def alphabet(kind):
         ops.append(('subscribe', 0, (5,), 0, '', 'a'))
         ops.append(('subscribe', 0, (5,), None, '', 'b'))
         ops.append(('unsubscribe', 0, (5,), 0, '', None))
+        # a provided interface that extends P0: when its last subscriber goes, P0's own subscribers must stay visible
+        ops.append(('subscribe', 0, (1,), 1, '', 'b'))
+        ops.append(('unsubscribe', 0, (1,), 1, '', None))
     else:  # 'arity'
         for req in ((), (1, 1), (2, 1), (0, 2), (2, 2)):
             for pi in (None, 0, 1):
